@@ -28,7 +28,9 @@ def elements(sh):
     return n
 
 
-def rand_val(rng):
+def rand_val(rng, p_zero=0.0):
+    if rng.random() < p_zero:
+        return "0"
     k = rng.choice([0, 0, 1, 2, 5])
     num = rng.randrange(0, 1 << 16) * rng.choice([1, 1, 1, -1])
     return "%d/%d" % (num, 1 << k) if k else str(num)
@@ -56,8 +58,10 @@ def check(rep, tier, seed):
     base = []   # (shape, data list) for metamorphic checks
     for sh in shapes:
         E = elements(sh)
-        for rep_i in range(2 if tier == "quick" else 3):
-            data = [rand_val(rng) for _ in range(E)]
+        for rep_i in range(3 if tier == "quick" else 4):
+            # dense, sparse (most mirror pairs empty) and nearly empty vectors: real spectra are sparse
+            pz = [0.0, 0.7, 0.95][rep_i % 3] if rep_i else rng.choice([0.0, 0.7])
+            data = [rand_val(rng, pz) for _ in range(E)]
             base.append((sh, data))
             for f in (FILLS if rep_i == 0 else [rng.choice(FILLS)]):
                 cases.append("fold %s %s %s" % (fmt(sh), fmt(data), f))
@@ -101,7 +105,7 @@ def check(rep, tier, seed):
     # --- CLI slice: integer data, text in -> text out, every fill
     jobs, meta = [], []
     for sh, d in rng.sample(base, min(len(base), 40 if tier == "quick" else 200)):
-        ints = [str(rng.randrange(0, 1000)) for _ in d]
+        ints = [str(rng.randrange(0, 1000)) if rng.random() < 0.5 else "0" for _ in d]
         for f in FILLS:
             jobs.append((["fold", "--fill", f, "--precision", "3"], text_spectrum(sh, ints)))
             meta.append((sh, ints, f))
